@@ -274,6 +274,12 @@ macro_rules! family {
                     first = false;
                     out.push_str(&hex(bytes_of(am.as_authority())));
                 }
+                // giving the handle up returns the authority it was showing
+                let shown = bytes_of(am.as_authority()).to_vec();
+                let fin = am.into_authority();
+                if bytes_of(fin) != &shown[..] {
+                    out.push_str("!BAD:into_authority");
+                }
                 Some(true)
             }
 
@@ -546,6 +552,17 @@ macro_rules! family {
                     if it.len() != nsegs.len().saturating_sub(1) || it.count() != nsegs.len().saturating_sub(1) { bad.push("len-after-back") }
                     let mut it2 = p.normalized_segments();
                     if it2.nth(1).map(|s| hex(bytes_of(s))) != nsegs.get(1).cloned() { bad.push("nth") }
+                    // derived queries that have no field of their own
+                    if p.is_relative() == p.is_absolute() { bad.push("is_relative") }
+                    for sg in p.segments() {
+                        let b = bytes_of(sg);
+                        let want = match b.iter().position(|&c| c == b':') {
+                            Some(k) if k > 0 => b[0].is_ascii_alphabetic()
+                                && b[1..k].iter().all(|&c| c.is_ascii_alphanumeric() || c == b'+' || c == b'-' || c == b'.'),
+                            _ => false,
+                        };
+                        if sg.looks_like_scheme() != want { bad.push("looks_like_scheme") }
+                    }
                     if bad.is_empty() { n.to_string() } else { format!("BAD:{}", bad.join("+")) }
                 };
                 format!(
